@@ -510,7 +510,7 @@ def main_c16(run):
     d.mkdir()
     (d / "hyv_hit.py").write_text(HIT_PY)
     base_env = {k: v for k, v in os.environ.items() if k not in ("PYTHONDONTWRITEBYTECODE", "HY_VERIF_TRACE")}
-    base_env.update(PYTHONPATH=str(d), HY_MESSAGE_WHEN_COMPILING="1")
+    base_env.update(PYTHONPATH=os.pathsep.join([str(d)] + [x for x in [os.environ.get("PYTHONPATH")] if x]), HY_MESSAGE_WHEN_COMPILING="1")
     # warm the bytecode caches of hy itself
     for pre in ("pyc-a", "pyc-b"):
         subprocess.run([PY, "-c", "import hy, hy.core.hy_repr, hy.pyops"], env=dict(base_env, PYTHONPYCACHEPREFIX=str(d / pre),
